@@ -142,7 +142,10 @@ BAD_INPUTS = {
     "conv_fail": None,
     "bad_transport": "SOLUTION 0-2\n Na 1\n Cl 1\nTRANSPORT\n -cells 5\n -shifts 2\n -lengths 7*1\nEND\n",
     "bad_phase": S1 + "EQUILIBRIUM_PHASES 1\n Nonexistentite 0 1\nEND\n",
+    "include_fail_mid": None,
+    "include_nested_missing": None,
 }
+INCLUDE_TRAILER = ("PHASES\n Calcite\n CaCO3 = CO3-2 + Ca+2\n log_k -7.0\nSOLUTION_SPECIES\n Ca+2 + Cl- = CaCl+\n log_k 2.5\nKNOBS\n -step_size 3\nSELECTED_OUTPUT 4\n -reset false\n -pH\nSOLUTION 60\n Ca 5\n Cl 10\n")
 
 
 def bad_text(k):
@@ -211,9 +214,9 @@ def generate(rng, tier, index):
                  "db": rng.choice(["phreeqc", "wateq4f", "pitzer"])}
     if fault and fault["kind"] in ("abort", "alloc", "eio", "input") and not segs:
         segs.append({"db": "phreeqc", "dbstring": False, "setters": [], "inputs": [], "entries": []})
-    db2 = rng.choice(["phreeqc", "phreeqc", "phreeqc", "wateq4f", "pitzer"])
+    db2 = rng.choice(["phreeqc", "phreeqc", "phreeqc", "wateq4f", "pitzer", "iso"])
     probes = []
-    pk = PROBE_KEYS if db2 in ("phreeqc", "wateq4f") else PROBES_ANYDB
+    pk = PROBE_KEYS if db2 in ("phreeqc", "wateq4f", "iso") else PROBES_ANYDB
     for _ in range(rng.range(1, 3)):
         probes.append(rng.choice(pk))
     # a probe that ends in an error is the last call of the plan: what follows a failed call without a reload is outside the contract
@@ -266,6 +269,10 @@ def fault_ops(plan, k=None):
         if k is not None:
             ops.append(["fault_abort", "s1", f["cls"], str(k), "2000000"] if kind == "abort" else ["fault_alloc", str(k)])
         return ops + [call("cpp", "s1", "RunString", hist_text(f["input"]))]
+    if kind == "input" and f["input"] in ("include_fail_mid", "include_nested_missing"):
+        # the failure happens in the middle of an include file whose later lines stay unread
+        bad = "USE solution 99\nREACTION 1\n NaCl 1\n 1 mmol\nEND\n" if f["input"] == "include_fail_mid" else "INCLUDE$ c07_nested_missing.pqi\nEND\n"
+        return [["mkfile", "c07_inc_outer.pqi", S1 + "END\n" + bad + INCLUDE_TRAILER], call("cpp", "s1", "RunString", "INCLUDE$ c07_inc_outer.pqi\nSOLUTION 50\n K 1\nEND\n")]
     if kind == "input":
         return [call("cpp", "s1", "RunString", bad_text(f["input"]))]
     if kind == "eio":
